@@ -586,6 +586,32 @@ func runWireCase(raw json.RawMessage, w *TraceWriter) {
 			br4.Recycle()
 			rd4.Release(nil)
 		}
+		// short values that differ only by a NUL / space before or after (keys of a map, one after the other on ONE
+		// reader): each is read for what it is, whatever the reader read just before
+		if si == 0 && o.ok && (c.Kind == "string" || c.Kind == "binary") && o.n >= 5 && o.n <= 12 && o.n <= len(in) {
+			v := in[4:o.n]
+			enc := func(x []byte) []byte { return append([]byte{0, 0, 0, byte(len(x))}, x...) }
+			vars := [][]byte{v, append([]byte{0}, v...), v, append(append([]byte(nil), v...), 0), append([]byte{0, 0}, v...), v, append([]byte{' '}, v...), v[:len(v)-1], v}
+			var stream []byte
+			for _, x := range vars {
+				stream = append(stream, enc(x)...)
+			}
+			rd5 := bufiox.NewDefaultReader(&dataSource{data: stream, chunks: sh.chunks})
+			br5 := thrift.NewBufferReader(rd5)
+			prev := 0
+			for k, x := range vars {
+				o5 := decodeStream(c.Kind, enc(x), br5)
+				used := rd5.ReadLen()
+				w.Ev("dec", "api", "stream", "kind", c.Kind, "frag", fmt.Sprintf("%s+near-doubles-in-a-row#%d", sh.name, k), "in", projectWire(enc(x), 0, 0, c.SSeed), "ok", o5.ok, "n", o5.n-prev, "used", used-prev, "val", Raw(o5.val),
+					"tid", tidOf(o5.err), "srcerr", false, "panic", o5.panicd)
+				prev = used
+				if !o5.ok {
+					break
+				}
+			}
+			br5.Recycle()
+			rd5.Release(nil)
+		}
 		// a reader that is not sticky (somebody else's bufiox.Reader over a connection with deadlines): its first call fails
 		// with a transient error, the caller retries, and the decode then runs into whatever the source does next.  Every
 		// failure carries the error of THAT call: the second one the source's own end, not the time-out seen before it
